@@ -88,7 +88,9 @@ EvEmit(name, n, sleep, k, err, stop, cause, ra, op, t) ==
      stop |-> stop, cause |-> cause, ra |-> ra, op |-> op, t |-> t]
 EvHandler(n, sleep, dec, t) == [e |-> "handler", n |-> n, sleep |-> sleep, dec |-> dec, t |-> t]
 EvBSleep(sleep, f, t) == [e |-> "bsleep", sleep |-> sleep, fault |-> f, t |-> t]
-EvSleep(s, adv, t, t1) == [e |-> "sleep", s |-> s, adv |-> adv, t |-> t, t1 |-> t1]
+\* us: the requested sleep in microseconds (1 tick = 15625 us), so that a delay which is
+\* not a whole number of ticks can still be judged against the remaining time
+EvSleep(s, adv, t, t1) == [e |-> "sleep", s |-> s, us |-> s * 15625, adv |-> adv, t |-> t, t1 |-> t1]
 View(kind, id, ok, stop, attempts, lastk, cause, lexc, lres, next, own) ==
     [kind |-> kind, id |-> id, ok |-> ok, stop |-> stop, attempts |-> attempts, lastk |-> lastk,
      cause |-> cause, lexc |-> lexc, lres |-> lres, next |-> next, own |-> own]
@@ -158,10 +160,12 @@ Invoke(c, s) ==
         { <<EvInvoke(s.att, s.now, o.out, o.k, o.ra, d),
             LET s1 == [s EXCEPT !.now = s.now + d, !.ninv = s.att,
                                 !.ck = o.k, !.cra = o.ra, !.cout = o.out,
-                                !.ccause = IF o.out = "exc" THEN "exception"
+                                !.ccause = IF o.out \in {"exc", "excsame"} THEN "exception"
                                            ELSE IF o.out = "res" THEN "result" ELSE "-"]
             IN  CASE o.out = "ok"    -> [s1 EXCEPT !.pc = IF c.rc THEN "rcl_ok" ELSE "succ"]
-                  [] o.out = "exc"   -> [s1 EXCEPT !.pc = IF c.abort THEN "pollfail" ELSE "classify"]
+                  [] o.out \in {"exc", "excsame"} ->
+                        \* "excsame": the operation raises the very object it raised last time
+                        [s1 EXCEPT !.pc = IF c.abort THEN "pollfail" ELSE "classify"]
                   [] o.out = "res"   -> [s1 EXCEPT !.pc = "rcl_res"]
                   [] o.out = "abort" -> [s1 EXCEPT !.pc = "abortemit", !.abn = s.att, !.own = TRUE]
                   [] o.out \in CancelOuts -> [s1 EXCEPT !.pc = "deliver", !.dkind = "cancel"]>>
